@@ -172,7 +172,7 @@ def gate(ctx, report, rule, facts, config):
                 ok = name in SHARED_BORROWS | EXCL_BORROWS
                 if name == "<return>":
                     # the audited unsafe escape hatch, or a private helper whose callers are all looked at here with it in place
-                    ok = (b.key == tfi_key and bool(b.raw.get("unsafe"))) or (not b.raw.get("pub") and not str(b.raw.get("vis", "")).startswith("Public"))
+                    ok = (b.key == tfi_key and bool(b.raw.get("unsafe"))) or not b.api
                 if not ok:
                     problems.append("the looked-up cell flows into `%s`%s (only the cell's borrow calls may see it)" % (name, " at %s" % where if where else ""))
         report.ob(rule, "table-access/%s" % b.qname, not problems, "; ".join(sorted(set(problems))) if problems else
@@ -217,9 +217,9 @@ def gate(ctx, report, rule, facts, config):
         ok = bool(got) and not bad
         if ok and passes_on:
             cs = sorted(set(rootfn(c2).key for c2, b2 in callers_of.get(cb.key, [])))
-            if cb.raw.get("pub") or not cs:
+            if cb.api or not cs:
                 ok = False
-                detail = "the cell handed out by try_fetch_internal is passed on by %s, which %s" % (cb.qname, "is public" if cb.raw.get("pub") else "nobody in the crate calls")
+                detail = "the cell handed out by try_fetch_internal is passed on by %s, which %s" % (cb.qname, "is public" if cb.api else "nobody in the crate calls")
             else:
                 work.extend(cs)
                 detail += " (passed on to its callers, which are looked at in turn)"
@@ -1011,7 +1011,7 @@ def guard_built(ctx, report, rule, facts, config):
         oks = sorted(set(r[1] for a, r in found if r[0] == "ok"))
         if needs and not bad:
             cs = sorted(set(root(cb).key for cb, bb in callers.get(fn.key, [])))
-            pub = bool(fn.raw.get("pub"))
+            pub = bool(fn.api)
             if pub or not cs:
                 bad.append("the guard is built around a cell handed in by the caller, and %s" % ("the function is public" if pub else "no caller is in sight"))
             else:
@@ -1090,8 +1090,8 @@ def entry_built(ctx, report, rule, facts, config):
         oks = sorted(set(r[1] for r in found if r[0] == "ok"))
         if needs and not bad:
             cs = sorted(set(root(cb).key for cb, bb in callers.get(fn.key, [])))
-            if fn.raw.get("pub") or not cs:
-                bad.append("the entry wraps what the caller hands in, and %s" % ("the function is public" if fn.raw.get("pub") else "no caller is in sight"))
+            if fn.api or not cs:
+                bad.append("the entry wraps what the caller hands in, and %s" % ("the function is public" if fn.api else "no caller is in sight"))
             else:
                 work.extend(facts.bodies[k] for k in cs)
         if not found:
@@ -1201,8 +1201,8 @@ def downcast_sites(ctx, report, rule, facts, config):
         oks = sorted(set(r[1] for r in found if r[0] == "ok"))
         if needs and not bad:
             cs = sorted(set(root(cb).key for cb, bb in callers.get(fn.key, [])))
-            if fn.raw.get("pub") or not cs:
-                bad.append("what is downcast is handed in by the caller, and %s" % ("the function is public" if fn.raw.get("pub") else "no caller is in sight"))
+            if fn.api or not cs:
+                bad.append("what is downcast is handed in by the caller, and %s" % ("the function is public" if fn.api else "no caller is in sight"))
             else:
                 work.extend(facts.bodies[k] for k in cs)
         if not found:
